@@ -125,11 +125,67 @@ func checkC06(c *Ctx) {
 			}
 		}
 	}
-	if exec == nil || abort == nil || cc == nil || dup == nil {
+	if exec == nil || abort == nil || cc == nil {
 		c.Unresolved("C06.2", "ClientIO", "anchor missing")
 		return
 	}
-	dupPrefix := shortName(dup) + "("
+	inlineDup := dup == nil // the duplicate test is written out in Exec: judged on the CFG of the updating function
+	dupPrefix := "\x00no-such-helper("
+	if dup != nil {
+		dupPrefix = shortName(dup) + "("
+	}
+	// inlineGate: in fn, the update `in` of command cmd is reached only past the test "the client is known and
+	// cmd.SequenceNumber <= its recorded number", and not from the edge on which that test came out true.
+	inlineGate := func(fl *Flow, in ssa.Instruction, cmd string) bool {
+		lk := "p0->" + kCIO + "lastExecutedSeqNum[" + cmd + "->" + kCmd + "ClientID]"
+		isDupFact := func(fs FactSet) bool {
+			return trueOf(fs, is(lk+"#1")) && hasCmp(fs, "<=", is(cmd+"->"+kCmd+"SequenceNumber"), is(lk+"#0"))
+		}
+		var dupSuccs []*ssa.BasicBlock
+		for _, b := range fl.Fn.Blocks {
+			for _, sc := range b.Succs {
+				if len(b.Succs) == 2 && isDupFact(fl.AtEdge(b, sc)) && !isDupFact(fl.AtBlockStart(b)) {
+					dupSuccs = append(dupSuccs, sc)
+				}
+			}
+		}
+		if len(dupSuccs) == 0 {
+			return false
+		}
+		// where the command is taken from the batch: the boundary of one iteration
+		var iter *ssa.BasicBlock
+		eachInstr(fl.Fn, func(x ssa.Instruction) {
+			if v, ok := x.(ssa.Value); ok && iter == nil && fl.K.Key(v) == cmd {
+				iter = x.Block()
+			}
+		})
+		isTarget := func(x ssa.Instruction) bool { return x == in }
+		atIter := func(x ssa.Instruction) bool { return iter != nil && x.Block() == iter && x == iter.Instrs[0] }
+		for _, ds := range dupSuccs {
+			if reachAvoidFromPlain(ds, 0, isTarget, atIter, map[*ssa.BasicBlock]bool{ds: true}) != nil {
+				return false // the update is reachable on the "already executed" branch
+			}
+		}
+		// and within the iteration every path to the update crosses an edge that says "not a duplicate"
+		// (client unknown, or recorded number < cmd.SequenceNumber)
+		if iter != nil && in.Block() != iter {
+			notDup := func(fs []Fact) bool {
+				for _, f := range fs {
+					if f.Op == "false" && f.L == lk+"#1" {
+						return true
+					}
+					if f.Op == "<" && f.L == lk+"#0" && f.R == cmd+"->"+kCmd+"SequenceNumber" {
+						return true
+					}
+				}
+				return false
+			}
+			if cfgSearchPlain(fl, iter, isTarget, func(ssa.Instruction) bool { return false }, notDup) != nil {
+				return false
+			}
+		}
+		return true
+	}
 	isDupOf := func(cmd string) func(string) bool {
 		return func(k string) bool {
 			return strings.HasPrefix(k, dupPrefix) && (strings.HasSuffix(k, ", "+cmd+")") || strings.Contains(k, ", "+cmd+")@"))
@@ -149,6 +205,9 @@ func checkC06(c *Ctx) {
 		check := func(in ssa.Instruction, what, cmd string) {
 			facts := fl.At(in)
 			ok := falseOf(facts, isDupOf(cmd)) || branchDominates(fl, in, func(f Fact) bool { return f.Op == "false" && isDupOf(cmd)(f.L) })
+			if inlineDup {
+				ok = inlineGate(fl, in, cmd)
+			}
 			c.Check(ok, "C06.2", "Exec: "+what+" only for non-duplicates", p.InstrPos(in),
 				what+" is reached only under !isDuplicate(cmd)", what+" reachable for an already executed (client id, sequence number); facts: "+join(facts.Sorted()))
 			stateUpdates = append(stateUpdates, in)
@@ -178,6 +237,16 @@ func checkC06(c *Ctx) {
 					facts := fl.At(in)
 					ok := falseOf(facts, func(k string) bool { return strings.HasPrefix(k, dupPrefix) }) ||
 						branchDominates(fl, in, func(f Fact) bool { return f.Op == "false" && strings.HasPrefix(f.L, dupPrefix) })
+					if inlineDup {
+						// the counter goes with the sequence-number record of the same iteration
+						ok = false
+						for _, su := range stateUpdates {
+							if mu, isMU := su.(*ssa.MapUpdate); isMU && su.Parent() == in.Parent() && (precedes(su, in) || precedes(in, su)) {
+								cmd := strings.TrimSuffix(fl.K.Key(mu.Key), "->"+kCmd+"ClientID")
+								ok = inlineGate(fl, in, cmd)
+							}
+						}
+					}
 					c.Check(ok && fl.K.Key(x.Val) == "(p0->"+kCIO+"cmdCount + c:1)", "C06.2", "Exec: the command counter only for non-duplicates", p.InstrPos(in),
 						"cmdCount++ only under !isDuplicate(cmd)", "counter update not gated; facts: "+join(facts.Sorted()))
 					stateUpdates = append(stateUpdates, in)
@@ -189,7 +258,9 @@ func checkC06(c *Ctx) {
 		c.Unresolved("C06.2", "Exec", "expected digest, counter and sequence-number updates")
 	}
 	// isDuplicate polarity
-	{
+	if inlineDup {
+		c.Held("C06.2", "isDuplicate: known client and seq <= last executed", p.FuncPos(exec), "the test is written out in Exec: every state update is reached only past `known && cmd.SequenceNumber <= recorded`, never from its true edge")
+	} else {
 		ok := dupPolarity(dup, dupMap, dupCmd)
 		c.Check(ok, "C06.2", "isDuplicate: known client and seq <= last executed", p.FuncPos(dup),
 			"true exactly when lastExecutedSeqNum has the client and cmd.SequenceNumber <= the recorded number", "unexpected comparison in ClientIO.isDuplicate")
